@@ -529,7 +529,12 @@ func (r *Runner) gcPrimary(o Op) {
 	if mp == nil {
 		return
 	}
-	ctx, stop := r.limitCtx(o.B, "mh.gc.")
+	prefix, n := "mh.gc.", o.B
+	if o.B >= 1000 {
+		// budget expires while the n-th file of the cycle is being scanned
+		prefix, n = "mh.gc.file.start", o.B-1000
+	}
+	ctx, stop := r.limitCtx(n, prefix)
 	defer stop()
 	before := r.RT.Counts()
 	// structural trigger of finding C04-F1: superseded records may still be unmarked
